@@ -8,6 +8,7 @@ parameters; renaming or re-ordering locals does not change it.
 """
 
 import ast
+import copy
 import re
 
 from .core import AnalysisError
@@ -28,6 +29,8 @@ class Defs:
         self.all = {}  # name -> [(line, ranges, record)]
         self.multi = set()
         self.loopvars = {}
+        self.loops = {}  # name -> [(For stmt, tuple position or None, ordinal)]
+        self._nloops = 0
         for scope in [fn] + list(extra_scopes):
             self.params |= set(arg_names(scope))
         self._scan(fn.body, [])
@@ -49,8 +52,14 @@ class Defs:
             elif isinstance(st, ast.AugAssign) and isinstance(st.target, ast.Name):
                 self.multi.add(st.target.id)
             elif isinstance(st, ast.For):
+                self._nloops += 1
                 if isinstance(st.target, ast.Name):
                     self.loopvars[st.target.id] = st
+                    self.loops.setdefault(st.target.id, []).append((st, None, self._nloops))
+                elif isinstance(st.target, (ast.Tuple, ast.List)):
+                    for i, t in enumerate(st.target.elts):
+                        if isinstance(t, ast.Name):
+                            self.loops.setdefault(t.id, []).append((st, i, self._nloops))
             for field in ("body", "orelse", "finalbody"):
                 sub = getattr(st, field, None)
                 if sub and isinstance(sub, list) and isinstance(sub[0], ast.stmt):
@@ -76,6 +85,15 @@ class Defs:
                         if isinstance(tt, ast.Name):
                             self.all.setdefault(tt.id, []).append((line, list(ranges), ("unpack2", value, i, j)))
 
+    def loop_of(self, name, line):
+        """(For stmt, tuple position, ordinal) of the innermost loop binding `name` whose body contains `line`."""
+        best = None
+        for st, pos, k in self.loops.get(name, ()):
+            if line is None or st.lineno <= line <= getattr(st, "end_lineno", st.lineno):
+                if best is None or st.lineno >= best[0].lineno:
+                    best = (st, pos, k)
+        return best
+
     def lookup(self, name, line):
         """Definition record reaching a use of `name` at `line`, or None if the name must stay opaque."""
         if name in self.multi or name not in self.all:
@@ -93,14 +111,21 @@ class Defs:
         return None
 
 
+def _np_call(node, name, nargs):
+    return (isinstance(node, ast.Call) and isinstance(node.func, ast.Attribute) and node.func.attr == name and isinstance(node.func.value, ast.Name)
+            and node.func.value.id in ("_np", "np", "numpy") and len(node.args) == nargs and not node.keywords)
+
+
 STRIP_METHODS = {"astype", "copy", "ravel"}
 STRIP_FUNCS = {"array", "asarray", "ascontiguousarray", "dtype"}
 
 
-def canon(node, defs, keep=(), _depth=0, _seen=frozenset(), commutative_mult=True):
+def canon(node, defs, keep=(), _depth=0, _seen=frozenset(), commutative_mult=True, lv=False):
+    """lv=True additionally replaces loop variables by `‹k:iterable›` (k = ordinal of the loop in the function), so
+    the canonical form does not depend on what a loop variable is called."""
     if _depth > 200:
         raise AnalysisError("provenance expression too deep")
-    c = lambda n: canon(n, defs, keep, _depth + 1, _seen, commutative_mult)
+    c = lambda n: canon(n, defs, keep, _depth + 1, _seen, commutative_mult, lv)
     if isinstance(node, ast.Name):
         if node.id in keep:
             return node.id
@@ -108,12 +133,18 @@ def canon(node, defs, keep=(), _depth=0, _seen=frozenset(), commutative_mult=Tru
         if d is not None and id(d) in _seen:
             return node.id  # cyclic definition (loop-carried value): keep the name
         if d is not None:
-            c = lambda n: canon(n, defs, keep, _depth + 1, _seen | {id(d)}, commutative_mult)
+            c = lambda n: canon(n, defs, keep, _depth + 1, _seen | {id(d)}, commutative_mult, lv)
             if d[0] == "expr":
                 return c(d[1])
             if d[0] == "unpack":
                 return "%s[%d]" % (c(d[1]), d[2])
             return "%s[%d][%d]" % (c(d[1]), d[2], d[3])
+        if lv and hasattr(defs, "loop_of"):
+            lp = defs.loop_of(node.id, getattr(node, "lineno", None))
+            if lp is not None and id(lp[0]) not in _seen:
+                c = lambda n: canon(n, defs, keep, _depth + 1, _seen | {id(lp[0])}, commutative_mult, lv)
+                base = "‹%d:%s›" % (lp[2], c(lp[0].iter))
+                return base if lp[1] is None else "%s[%d]" % (base, lp[1])
         return node.id
     if isinstance(node, ast.Constant):
         return repr(node.value)
@@ -121,6 +152,11 @@ def canon(node, defs, keep=(), _depth=0, _seen=frozenset(), commutative_mult=Tru
         return c(node.value) + "." + node.attr
     if isinstance(node, ast.Call):
         f = node.func
+        # index-of-true idioms on 1-d masks: flatnonzero(m) == argwhere(m).flatten() == where(m)[0] == nonzero(m)[0]
+        if _np_call(node, "flatnonzero", 1):
+            return "nz(%s)" % c(node.args[0])
+        if isinstance(f, ast.Attribute) and f.attr in ("flatten", "ravel") and not node.args and _np_call(f.value, "argwhere", 1):
+            return "nz(%s)" % c(f.value.args[0])
         if isinstance(f, ast.Attribute) and f.attr in STRIP_METHODS and "ravel" != f.attr:
             return c(f.value)
         if isinstance(f, ast.Attribute) and f.attr == "ravel":
@@ -128,9 +164,12 @@ def canon(node, defs, keep=(), _depth=0, _seen=frozenset(), commutative_mult=Tru
         fname = unparse(f)
         if fname.split(".")[-1] in STRIP_FUNCS and fname.split(".")[0] in ("_np", "np", "numpy") and node.args:
             return c(node.args[0])
-        args = [c(a) for a in node.args] + ["%s=%s" % (k.arg, c(k.value)) for k in node.keywords]
+        # dtype= keywords are conversions like .astype: not part of the provenance
+        args = [c(a) for a in node.args] + ["%s=%s" % (k.arg, c(k.value)) for k in node.keywords if k.arg != "dtype"]
         return "%s(%s)" % (c(f), ",".join(args))
     if isinstance(node, ast.Subscript):
+        if isinstance(node.slice, ast.Constant) and node.slice.value == 0 and (_np_call(node.value, "where", 1) or _np_call(node.value, "nonzero", 1)):
+            return "nz(%s)" % c(node.value.args[0])
         return "%s[%s]" % (c(node.value), c(node.slice))
     if isinstance(node, ast.Slice):
         return "%s:%s" % (c(node.lower) if node.lower else "", c(node.upper) if node.upper else "")
@@ -209,6 +248,87 @@ class _NoDefs:
 
     def lookup(self, name, line):
         return None
+
+
+class Store:
+    __slots__ = ("target", "op", "value", "node", "guards", "loops", "tnode", "vnode")
+
+    def __repr__(self):
+        return "%s %s %s" % (self.target, self.op, self.value)
+
+
+def stores(body, defs, keep=(), lv=True, _guards=(), _loops=()):
+    """Every assignment below `body` (not descending into nested defs) as Store records with canonical target and
+    value, the stack of enclosing `if` tests ((canonical test, branch)) and the enclosing loop statements."""
+    out = []
+    for st in body:
+        if isinstance(st, (ast.Assign, ast.AugAssign)):
+            targets = st.targets if isinstance(st, ast.Assign) else [st.target]
+            for t in targets:
+                s = Store()
+                s.node, s.tnode, s.vnode = st, t, st.value
+                s.op = "=" if isinstance(st, ast.Assign) else type(st.op).__name__ + "="
+                if isinstance(t, ast.Name):
+                    s.target = t.id
+                else:
+                    s.target = canon(t, defs, keep, lv=lv).replace(" ", "")
+                s.value = canon(st.value, defs, keep, lv=lv).replace(" ", "")
+                s.guards, s.loops = tuple(_guards), tuple(_loops)
+                out.append(s)
+        elif isinstance(st, ast.Return):
+            s = Store()
+            s.node, s.tnode, s.vnode, s.op, s.target = st, None, st.value, "return", None
+            s.value = canon(st.value, defs, keep, lv=lv).replace(" ", "") if st.value is not None else "None"
+            s.guards, s.loops = tuple(_guards), tuple(_loops)
+            out.append(s)
+        elif isinstance(st, ast.If):
+            g = canon(st.test, defs, keep, lv=lv).replace(" ", "")
+            out += stores(st.body, defs, keep, lv, _guards + ((g, True),), _loops)
+            out += stores(st.orelse, defs, keep, lv, _guards + ((g, False),), _loops)
+        elif isinstance(st, (ast.For, ast.While)):
+            out += stores(st.body, defs, keep, lv, _guards, _loops + (st,))
+            out += stores(st.orelse, defs, keep, lv, _guards, _loops)
+        elif isinstance(st, ast.With):
+            out += stores(st.body, defs, keep, lv, _guards, _loops)
+        elif isinstance(st, ast.Try):
+            for blk in (st.body, st.orelse, st.finalbody):
+                out += stores(blk, defs, keep, lv, _guards, _loops)
+            for h in st.handlers:
+                out += stores(h.body, defs, keep, lv, _guards, _loops)
+    return out
+
+
+def expect(src, defs, line, keep=(), lv=True, **bind):
+    """Canonical form of the expected expression `src` (ordinary Python) as if it stood at `line` of the analysed
+    function: names in `bind` are replaced by the given AST nodes (or source strings) found in the code, all other
+    names resolve through the function's own definitions.  Expected and actual forms thus go through the same
+    normalisation, so a rule states *what* must be computed, never how the code spells it."""
+    tree = ast.parse(src, mode="eval").body
+
+    class Sub(ast.NodeTransformer):
+        def visit_Name(self, n):
+            if n.id in bind:
+                b = bind[n.id]
+                if isinstance(b, str):
+                    # a binding given as text may itself mention placeholders (N="G.number_of_vertices")
+                    if depth[0] > 8:
+                        raise AnalysisError("expect: cyclic placeholder bindings in %r" % src)
+                    depth[0] += 1
+                    b = self.visit(ast.Expression(body=ast.parse(b, mode="eval").body)).body if b != n.id else ast.Name(id=b, ctx=ast.Load())
+                    depth[0] -= 1
+                    return b
+                return copy.deepcopy(b)
+            return n
+
+    depth = [0]
+
+    tree = Sub().visit(ast.Expression(body=tree)).body
+    # every node (expected text and substituted code alike) is read at the same program point
+    for n in ast.walk(tree):
+        if isinstance(n, ast.expr):
+            n.lineno = n.end_lineno = line
+            n.col_offset = n.end_col_offset = 0
+    return canon(tree, defs, keep, lv=lv).replace(" ", "")
 
 
 def canon_text(src):
